@@ -23,7 +23,7 @@ def cmd_setup(_args):
 			return 2
 	gen.regenerate()
 	status, out = common.run(['make', 'clean'], 120, cwd=common.COQ) if (common.COQ / 'Makefile').exists() else (0, '')
-	ok, out = common.coq_make(timeout=3000)
+	ok, out = common.coq_make(timeout=3000, keep_going=False)
 	if not ok:
 		print(out[-4000:])
 		print('INTERNAL: coq build failed')
@@ -47,8 +47,9 @@ def cmd_setup(_args):
 
 
 def cmd_pin(_args):
-	gen.pin_modules(gen.ALL_MODULES)
-	print('pinned', sum(len(m.all_anchors()) for m in gen.ALL_MODULES), 'anchors')
+	only = set(_args.modules) if _args.modules else None
+	gen.pin_modules(gen.all_modules(), only)
+	print('pinned', sum(len(m.all_anchors()) for m in gen.all_modules() if not only or m.name in only), 'anchors')
 	return 0
 
 
@@ -85,7 +86,8 @@ def main():
 	parser = argparse.ArgumentParser()
 	sub = parser.add_subparsers(dest='cmd', required=True)
 	sub.add_parser('setup')
-	sub.add_parser('pin')
+	pin = sub.add_parser('pin')
+	pin.add_argument('modules', nargs='*')
 	check = sub.add_parser('check')
 	check.add_argument('id')
 	check.add_argument('--tier', choices=['quick', 'thorough'])
